@@ -258,7 +258,7 @@ class Watch:
 class Transition:
     """One applied write, as shown to the invariants."""
     __slots__ = ('seq', 't', 'actor', 'verb', 'rkey', 'ns', 'name', 'uid', 'before', 'after',
-                 'request', 'subresource', 'content_type')
+                 'request', 'subresource', 'content_type', 'ctx')
 
     def __init__(self, **kw: Any) -> None:
         for k in self.__slots__:
@@ -378,7 +378,7 @@ class FakeCluster:
         self.sim.count('fault.compaction')
 
     def _notify(self, **kw: Any) -> None:
-        tr = Transition(seq=self.sim.seq, t=self.sim.now, **kw)
+        tr = Transition(seq=self.sim.seq, t=self.sim.now, ctx=getattr(self, 'current_ctx', None), **kw)
         for listener in self.listeners:
             listener(tr)
 
